@@ -1,6 +1,7 @@
 """C15 — xarray_reduce agrees with xarray's own groupby (use_flox=False), including dims, coords and attrs."""
 from __future__ import annotations
 
+import itertools
 import json
 import random
 import warnings
@@ -380,11 +381,74 @@ def restore_cases(run, rng, n):
     run.oblige("correspondence:K2 XrDims.restore_dim_order == flox.xarray._restore_dim_order", good, detail[:1200])
 
 
+def broadcast_cases(run, rng, n):
+    """_broadcast_size_one_dims (aligns every grouper with the array's core dims): element-wise semantics on labelled index
+    arrays, dims of equal length most of the time (a wrong permutation is then shape-compatible and silent)"""
+    import numpy as np
+
+    from flox.xarray import _broadcast_size_one_dims
+
+    coq = []
+    primes = {"x": 2, "y": 3, "z": 5, "w": 7}
+    for _ in range(n):
+        ncore = rng.randint(1, 4)
+        core0 = rng.sample(["x", "y", "z", "w"], ncore)
+        side = rng.choice([2, 3])
+        distinct = rng.random() < 0.3      # distinct lengths: the axis names of the result can be read off its shape (Coq K2)
+        sizes = {d: (primes[d] if distinct else side if rng.random() < 0.8 else rng.randint(2, 4)) for d in core0}
+        nby = rng.randint(1, 2)
+        bys, bydims = [], []
+        for _b in range(nby):
+            k = rng.randint(1, ncore)
+            dims = rng.sample(core0, k)                      # any subset, any order
+            by = np.arange(int(np.prod([sizes[d] for d in dims]))).reshape([sizes[d] for d in dims])
+            bys.append(by)
+            bydims.append(dims)
+        lead = rng.randint(0, 1)
+        array = np.zeros([2] * lead + [sizes[d] for d in core0])
+        try:
+            out = _broadcast_size_one_dims(array, *bys, core_dims=[core0] + bydims)
+        except Exception as e:  # noqa: BLE001
+            run.violation({"property": "C15", "kind": "_broadcast_size_one_dims raised", "core_dims": core0, "by_dims": bydims, "sizes": sizes,
+                           "exc": repr(e)[:200]}, tag="bcast")
+            return
+        run.count(f"bc|{core0}|{bydims}|{sizes}", ncore > 1)
+        for by, dims, res in zip(bys, bydims, out[1:]):
+            if distinct:
+                inv = {v: k for k, v in primes.items()}
+                names = [f"(Some {C.str_lit(inv[n_])})" if n_ in inv else "None" for n_ in res.shape]
+                sl = lambda l: C.list_lit([C.str_lit(x) for x in l])   # noqa: E731
+                coq.append(f"({sl(core0)}, {sl(dims)}, {C.list_lit(names)})")
+            want_shape = tuple(sizes[d] if d in dims else 1 for d in core0)
+            ok = tuple(res.shape) == want_shape
+            if ok:
+                full = np.broadcast_to(res, [sizes[d] for d in core0])
+                for idx in itertools.product(*[range(sizes[d]) for d in core0]):
+                    pos = dict(zip(core0, idx))
+                    if full[idx] != by[tuple(pos[d] for d in dims)]:
+                        ok = False
+                        break
+            if not ok:
+                run.violation({"property": "C15", "kind": "_broadcast_size_one_dims mis-aligns a grouper with the array's core dimensions",
+                               "core_dims": core0, "by_dims": dims, "sizes": sizes, "result_shape": list(res.shape), "wanted_shape": list(want_shape),
+                               "how_to_run": "flox.xarray._broadcast_size_one_dims(array, by, core_dims=[core_dims, by_dims]) with by = arange"}, tag="bcast")
+                return
+    hdr = "From Coq Require Import ZArith String List Bool.\nFrom Flox Require Import Cases.\nImport ListNotations.\nOpen Scope string_scope.\n"
+    text = hdr + "Definition cases := [\n " + ";\n ".join(coq) + "\n].\nEval vm_compute in (failing broadcast_case_ok cases).\n"
+    ok, o = C.coq_eval_many({"bcast": text}, "C15")["bcast"]
+    lists = C.parse_nat_list(o)
+    good = ok and len(lists) == 1 and not lists[0]
+    run.extra["broadcast_model_cases_in_coq"] = len(coq)
+    run.oblige("correspondence:K2 XrDims.broadcast_result == axes of flox.xarray._broadcast_size_one_dims", good,
+               "" if good else (f"model differs on {[coq[j] for j in lists[0][:3]]}" if ok and len(lists) == 1 else o[-400:])[:1200])
+
+
 def run(run: C.Run):
     rng = random.Random(run.seed)
     P.front(run, translators=())
     thorough = run.tier == "thorough"
     restore_cases(run, rng, 3000 if thorough else 600)
+    broadcast_cases(run, rng, 4000 if thorough else 800)
     cases(run, rng, 6000 if thorough else 500, 4 if thorough else 3)
     nd_grouper_cases(run, rng, 2000 if thorough else 250)
     if any(not o[1] for o in run.obligations) and not run.violations:
